@@ -373,7 +373,14 @@ func (pf Producer[T]) WithCancel() (Producer[T], context.CancelFunc) {
 		once.Do(func() { wctx, cancel = context.WithCancel(ctx) })
 		Invariant.IsFalse(wctx == nil, "must start the operation before calling cancel")
 		return pf(wctx)
-	}, func() { once.Do(func() {}); ft.SafeCall(cancel) }
+	}, func() {
+		// when the cancel function wins the race with the first
+		// call (e.g. an iterator closed while another goroutine
+		// enters ReadOne), that call runs with a context that is
+		// already canceled, rather than without a context.
+		once.Do(func() { wctx, cancel = context.WithCancel(context.Background()) })
+		ft.SafeCall(cancel)
+	}
 }
 
 // Limit runs the producer a specified number of times, and caches the
